@@ -45,7 +45,7 @@ func init() {
 			{ID: "C12-R15", Title: "the OS given to the VM comes before the context's", Floor: 1, Run: theOSGivenToTheVMComesFirst},
 			{ID: "C12-R16", Title: "a Config is applied to the VM as a whole (shared with C11-R24)", Floor: 3, Run: theConfigurationIsAppliedAsAWhole},
 			{ID: "C12-R17", Title: "the VM installs its own context values on every path", Floor: 3, Run: theVMInstallsItsOwnContextValuesOnEveryPath},
-			{ID: "C12-R18", Title: "options keep what they are given", Floor: 2, Run: optionsKeepWhatTheyAreGiven},
+			{ID: "C12-R18", Title: "options keep what they are given", Floor: 1, Run: optionsKeepWhatTheyAreGiven},
 			{ID: "C12-R19", Title: "options that are refused are rolled back, the OS among them (shared with C11-R23)", Floor: 3, Run: refusedOptionsAreRolledBack},
 		},
 	})
